@@ -41,6 +41,7 @@ def check(ctx):
     ctx.attempt(forward.check_all, module_suffixes=('plssdesc.plss_parse', 'plssdesc.plssdesc'))
     ctx.attempt(lockdown, ctx.repo.func('PLSSDesc.parse'), only=('layout', 'segment'))
     ctx.attempt(common.error_check_covers_all, ctx.repo.func('PLSSParser.check_error_tracts'))
+    ctx.attempt(common.config_words, plss=('layout', 'segment'))
 
 
 def _layout_lock(ctx, cl):
